@@ -535,7 +535,7 @@ func genC17(t *rapid.T) c17Case {
 	}
 	c.Sep = rapid.SampledFrom([]string{"", ",", tt, ", "}).Draw(t, "sep")
 	c.R = rapid.SampledFrom([]string{"", "X", tt + tt, s}).Draw(t, "r")
-	c.Pat = rapid.SampledFrom([]string{"", "a+b", "^a*$", "[ab]{2}", "a.b", "(a|b)b", "^$", "b$", "\\d", "(?i)A"}).Draw(t, "pat")
+	c.Pat = rapid.SampledFrom([]string{"", "a+b", "^a*$", "[ab]{2}", "a.b", "(a|b)b", "^$", "b$", "\\d", "(?i)A", "/a/", "/b/i", "//", "/[ab]+/g", "/", "#a#"}).Draw(t, "pat")
 	ws := []string{"", " ", "\t", "\n", " \r\n", "\v\f"}
 	c.Pre = rapid.SampledFrom(ws).Draw(t, "pre")
 	c.Suf = rapid.SampledFrom(ws).Draw(t, "suf")
